@@ -180,10 +180,12 @@ def build_middleware(sim: Sim, specs: list | None, real_components: dict | None 
         return None
     from nauyaca.server.middleware import MiddlewareChain
 
-    comps = []
-    for i, sp in enumerate(specs):
-        comps.append(_mk_component(sim, i, sp, real_components))
-    return MiddlewareChain(comps)
+    return MiddlewareChain(build_components(sim, specs, real_components))
+
+
+def build_components(sim: Sim, specs: list, real_components: dict | None = None) -> list:
+    """The spy components themselves, for callers that arrange them (nested chains)."""
+    return [_mk_component(sim, i, sp, real_components) for i, sp in enumerate(specs)]
 
 
 def _mk_component(sim, i, sp, real_components):
